@@ -394,9 +394,17 @@ def _generate(loader):
                     raise TraceError("SequentialTransform.tensor of 3 members is not one more homogeneous_matmul step")
                 ml3 = comp.MultiLevelTransform(AnyLinear(g, st.Tensor(a.a.copy()[None])), AnyLinear(g, st.Tensor(b.a.copy()[None])),
                                                AnyLinear(g, st.Tensor(c3.a.copy()[None])))
-                ref = st.Tensor(mm_.a.copy()) + linalg.as_homogeneous_matrix(st.Tensor(c3.a.copy()[None]))
-                if not trlib.same_tensor(ml3.tensor().a, ref.a):
-                    raise TraceError("MultiLevelTransform.tensor of 3 members is not one more matrix addition")
+                # k members: sum of the homogeneous matrices minus (k - 1) identities, in this order of operations
+                ref = linalg.as_homogeneous_matrix(st.Tensor(a.a.copy()[None])).clone()
+                ref = ref + linalg.as_homogeneous_matrix(st.Tensor(b.a.copy()[None]))
+                ref = ref + linalg.as_homogeneous_matrix(st.Tensor(c3.a.copy()[None]))
+                ref = ref - 2 * st.eye(D, D + 1)
+                t3 = ml3.tensor()
+                if not trlib.same_tensor(t3.a, ref.a):
+                    raise TraceError("MultiLevelTransform.tensor of 3 members is not (sum of the member matrices) - 2 I")
+                if (fa, fb, fc3) == ("H", "H", "H"):
+                    out.append(trlib.emit_match_def(f"gen_ml3_HHH_{D}", [("a", a), ("b", b), ("c", c3)], [], st.Tensor(t3.a[0]), None,
+                                                    f"MultiLevelTransform(A, B, C).tensor(), homogeneous members, D = {D}"))
         # empty composites, single members
         for cls_ in (comp.SequentialTransform, comp.MultiLevelTransform):
             e0 = cls_(g)
